@@ -33,6 +33,7 @@ type Frame struct {
 	loopHead map[*ssa.BasicBlock]*loopInfo
 	top      bool
 	curLockArg ssa.Value
+	ifaceModSet *ModSet
 }
 
 type edgeIn struct {
